@@ -765,45 +765,20 @@ class ExcelInPython:
         if start_num and (start_num > len(within_text) or start_num <= 0):
             return '#VALUE!'
 
-        pattern = r'([^~][?*]|^[?*])'
-        if len(re.findall(pattern, find_text)) == 0:
-            find_text = find_text.replace('~?', '?') \
-                .replace('~*', '*')
-
-            result = within_text.find(find_text, start_num - 1) + 1
-            return result if result else '#VALUE!'
-
-        find_text = find_text \
-            .replace('?', '(.)') \
-            .replace('*', '(.*)') \
-            .replace('~(.*)', r'\*') \
-            .replace('~(.)', r'\?')
-
-        result = re.finditer(find_text, within_text, re.I)
-
-        if result is None:
-            return '#VALUE!'
-
-        find_elem = None
-        for i in result:
-            if i.span(0)[0] + 1 < start_num:
+        # ? - любой символ, * - любая последовательность символов, ~ перед ?, * или ~ отменяет их особое значение;
+        # остальные символы ищутся как есть (не как regex), без учета регистра
+        pattern, index = '', 0
+        while index < len(find_text):
+            symbol = find_text[index]
+            if symbol == '~' and find_text[index + 1:index + 2] in ('?', '*', '~'):
+                pattern += re.escape(find_text[index + 1])
+                index += 2
                 continue
-            find_elem = i
-            break
-        # исключаем поиск по regex вроде \d
-        if find_elem:
-            sequences = find_elem.groups(0)
-            found_text = find_elem.group(0)
-            find_text = find_text.replace('(.*)', '(.)') \
-                                 .replace(r'\?', '?') \
-                                 .replace(r'\.', '.')
-            for sequence in sequences:
-                find_text = find_text.replace('(.)', sequence, 1)
-    
-            if found_text.lower() != find_text.lower():
-                return '#VALUE!'
-            
-        return find_elem.span(0)[0] + 1 if find_elem else '#VALUE!'
+            pattern += '.' if symbol == '?' else '.*' if symbol == '*' else re.escape(symbol)
+            index += 1
+
+        found = re.compile(pattern, re.I | re.S).search(within_text, start_num - 1)
+        return found.start() + 1 if found else '#VALUE!'
 
     def _excel_value_to_string(self, value: Any):
         if isinstance(value, (datetime.datetime)):
